@@ -71,8 +71,7 @@ func (fs *functionStore) scriggoFnIndex(fn *runtime.Function) int8 {
 	if index, ok := fs.scriggoFuncIndexes[currFn][fn]; ok {
 		return index
 	}
-	index := int8(len(currFn.Functions))
-	currFn.Functions = append(currFn.Functions, fn)
+	index := fs.emitter.fb.addFunction(fn)
 	fs.scriggoFuncIndexes[currFn][fn] = index
 	return index
 }
